@@ -245,6 +245,7 @@ class Interp:
         else:
             tbl.append(key)
             mid = len(tbl) - 1
+        first = st.n['sym'] + 1
         for root in list(st.mem.keys()):
             if root[0] != 'O':
                 continue
@@ -255,6 +256,7 @@ class Interp:
                 continue
             st.n['sym'] += 1
             st.mem[root] = ('hav', cur, mid, '%s@%d:%s' % (tag, st.n['sym'], root[1]))
+        st.events.append(('havoc', tag, first, st.n['sym']))
 
     # ------------------------------------------------------------- loops
     def loops_of(self, fname):
